@@ -35,20 +35,20 @@ Qed.
 Fixpoint find_variant {T} (tagv : pyval) (vs : list (pyval * T)) : option T :=
   match vs with
   | [] => None
-  | (tv, t) :: r => if py_eqb tagv tv then Some t else find_variant tagv r
+  | (tv, t) :: r => if lit_match tagv tv then Some t else find_variant tagv r
   end.
 
 Lemma with_variant_find {T C} tagv (g : T -> C) vs :
   with_variant tagv g vs = match find_variant tagv vs with Some t => Some (g t) | None => None end.
 Proof.
   induction vs as [|[tv t] r IH]; simpl; [reflexivity|].
-  destruct (py_eqb tagv tv); [reflexivity|apply IH].
+  destruct (lit_match tagv tv); [reflexivity|apply IH].
 Qed.
 
 Lemma find_variant_in {T} tagv (vs : list (pyval * T)) t : find_variant tagv vs = Some t -> In t (map snd vs).
 Proof.
   induction vs as [|[tv t'] r IH]; simpl; [discriminate|].
-  destruct (py_eqb tagv tv).
+  destruct (lit_match tagv tv).
   - intros H; inversion H; now left.
   - intros H. right. now apply IH.
 Qed.
